@@ -12,6 +12,29 @@ type omap struct {
 	keyType types.Type
 	keys    []value
 	vals    []value
+	// index for maps whose keys are all concrete strings (metadata maps with tens of
+	// thousands of entries would otherwise cost a linear scan per access)
+	sidx   map[string]int
+	nonStr bool
+}
+
+func (m *omap) strIndex() map[string]int {
+	if m.nonStr {
+		return nil
+	}
+	if m.sidx == nil || len(m.sidx) != len(m.keys) {
+		m.sidx = make(map[string]int, len(m.keys))
+		for i, k := range m.keys {
+			ks, ok := k.(string)
+			if !ok {
+				m.nonStr = true
+				m.sidx = nil
+				return nil
+			}
+			m.sidx[ks] = i
+		}
+	}
+	return m.sidx
 }
 
 func makeMap(kt types.Type, reserve int64) value {
@@ -21,6 +44,14 @@ func makeMap(kt types.Type, reserve int64) value {
 func (m *omap) find(k value) int {
 	if m == nil {
 		return -1
+	}
+	if ks, ok := k.(string); ok && len(m.keys) > 8 {
+		if idx := m.strIndex(); idx != nil {
+			if i, ok := idx[ks]; ok {
+				return i
+			}
+			return -1
+		}
 	}
 	for i := range m.keys {
 		if truth(equalsV(m.keyType, m.keys[i], k), "mapkey") {
@@ -49,6 +80,14 @@ func (m *omap) insert(k, v value) {
 	}
 	m.keys = append(m.keys, k)
 	m.vals = append(m.vals, v)
+	if ks, ok := k.(string); ok {
+		if m.sidx != nil && len(m.sidx) == len(m.keys)-1 {
+			m.sidx[ks] = len(m.keys) - 1
+		}
+	} else {
+		m.nonStr = true
+		m.sidx = nil
+	}
 }
 
 func (m *omap) delete(k value) {
@@ -61,6 +100,7 @@ func (m *omap) delete(k value) {
 	}
 	m.keys = append(m.keys[:i:i], m.keys[i+1:]...)
 	m.vals = append(m.vals[:i:i], m.vals[i+1:]...)
+	m.sidx = nil // positions shifted: rebuilt on the next indexed access
 }
 
 func (m *omap) len() int {
@@ -169,6 +209,14 @@ func (it *omapIter) next() tuple {
 		// entries deleted during iteration are not produced. Keys in the
 		// snapshot are identical objects, so compare concretely where
 		// possible.
+		if ks, ok := k.(string); ok && len(it.m.keys) > 8 {
+			if idx := it.m.strIndex(); idx != nil {
+				if i, ok := idx[ks]; ok {
+					return tuple{true, k, it.m.vals[i]}
+				}
+				continue
+			}
+		}
 		for i := range it.m.keys {
 			if sameKey(it.m.keyType, it.m.keys[i], k) {
 				return tuple{true, k, it.m.vals[i]}
